@@ -211,6 +211,11 @@ impl Move {
                 owner: Player::Black,
             })
         } else {
+            // A move is written with exactly four characters, or five for a promotion
+            if s.len() != 4 && s.len() != 5 {
+                return None;
+            }
+
             let mut chars = s.bytes();
             let start_col = chars.next()?.wrapping_sub(b'a') as i8;
             let start_row = chars.next()?.wrapping_sub(b'1') as i8;
@@ -222,10 +227,10 @@ impl Move {
 
             if let Some(new_piece) = s.chars().nth(4) {
                 let new_piece = match new_piece {
-                    'q' | 'Q' => PieceType::Queen,
-                    'r' | 'R' => PieceType::Rook,
-                    'n' | 'N' => PieceType::Knight,
-                    'b' | 'B' => PieceType::Bishop,
+                    'q' => PieceType::Queen,
+                    'r' => PieceType::Rook,
+                    'n' => PieceType::Knight,
+                    'b' => PieceType::Bishop,
                     _ => return None,
                 };
 
@@ -239,10 +244,19 @@ impl Move {
             }
 
             if let Some(piece) = game.get_position(start) {
+                // En passant is only ever played from the fifth rank to the sixth
+                // (from the fourth to the third for Black)
+                let (en_passant_start_row, en_passant_end_row) = match game.current_player {
+                    Player::White => (4, 5),
+                    Player::Black => (3, 2),
+                };
+
                 // This move is either en passant or normal
                 return if piece.piece_type == PieceType::Pawn
                     && game.get_position(end).is_none()
                     && i8::abs(start.col() - end.col()) == 1
+                    && start.row() == en_passant_start_row
+                    && end.row() == en_passant_end_row
                 {
                     Some(Self::EnPassant {
                         owner: game.current_player,
